@@ -1,4 +1,5 @@
-(* C11: extraction of the inline-expression model (tokenizer, reference parser, denotation). *)
+(* C11: extraction of the inline-expression model (tokenizer, reference parser, denotation; and the
+   pipeline as generated: token names, bison's table run by the yacc skeleton model, grammar actions). *)
 Require Import ExtrOcamlBasic ExtrOcamlNativeString.
-Require Import MPSV.Inline.InlineModel.
-Extraction "../ocaml/inline.ml" run_string.
+Require Import MPSV.Inline.InlineModel MPSV.Inline.InlineYaccModel.
+Extraction "../ocaml/inline.ml" run_string run_yacc_string.
